@@ -226,6 +226,11 @@ def depends(pid, sc):
         if n in seen or n not in ns:
             continue
         seen.add(n)
+        if n.startswith(("file:", "type:", "impl:")):
+            # a file preamble (imports, inner attributes), a type definition or a marker impl matters to the
+            # functions that refer to it, but what IT refers to (every imported type, the derives of every
+            # field type ...) does not become a dependency of those functions
+            continue
         todo.extend(ns[n].get("callees", []))
         todo.extend(ns[n].get("refs", []))
     return seen
